@@ -67,13 +67,15 @@ example : ¬ CacheInv 0 { l1 := Store.empty.set [1] (some ⟨[2], 0, 0⟩), l2 :
     a chunk entry leaves a metadata entry behind that reads cannot see but `add` can: if L2 does
     not serve the key and L1 serves a metadata entry of it, the main port's `add` returns "key
     exists" without a reply of its own — the client is told NOT_STORED — while L2 holds the added
-    value afterwards.  So on this configuration the loss of an L1 entry is NOT invisible. -/
+    value afterwards and the single map, asked the same, says "stored".  So on this configuration the loss of an L1 entry is NOT invisible. -/
 theorem C02_chunked_remnant_blocks_add (now : Nat) (w : World) (tk : List Bytes) (c : SetCmd)
     (hl2 : w.l2.look now c.key = none) (it : Item) (hl1 : w.l1.look now (Chunked.metaKey c.key) = some it) :
     ((L1L2.add (Chunked.handler .l1 now) (Std.handler .l2) c).eval now w tk).1 = .error (.app .keyExists) ∧
     ((L1L2.add (Chunked.handler .l1 now) (Std.handler .l2) c).eval now w tk).2.1 = [] ∧
     ((L1L2.add (Chunked.handler .l1 now) (Std.handler .l2) c).eval now w tk).2.2.1.l2 c.key =
-      some ⟨c.data, c.flags, deadlineOf now c.exptime⟩ :=
-  remnant_blocks_add now w tk c hl2 it hl1
+      some ⟨c.data, c.flags, deadlineOf now c.exptime⟩ ∧
+    (Spec.step now w.l2 (.store .add c)).2 = .ok :=
+  ⟨(remnant_blocks_add now w tk c hl2 it hl1).1, (remnant_blocks_add now w tk c hl2 it hl1).2.1,
+   (remnant_blocks_add now w tk c hl2 it hl1).2.2, by rw [spec_add_absent now w.l2 c hl2]⟩
 
 end Rend.Props.C02
